@@ -880,6 +880,12 @@ fn base_transparent(seed: u64) -> Base {
 
 /// 2 P2PKH inputs -> 2 Orchard outputs, v5 (pczt/tests/end_to_end.rs::transparent_to_orchard).
 fn base_t2o(seed: u64) -> Base {
+    base_t2o_memo(seed, 5)
+}
+
+/// `memo_kind`: the outputs' memo (see `stripped_memo`; 5 = the ordinary empty memo)
+fn base_t2o_memo(seed: u64, memo_kind: usize) -> Base {
+    let memo = || MemoBytes::from_bytes(&full_memo(memo_kind)).expect("512 bytes");
     let orchard_sk = orchard::keys::SpendingKey::from_bytes([0; 32]).unwrap();
     let fvk = orchard::keys::FullViewingKey::from(&orchard_sk);
     let mut builder =
@@ -897,7 +903,7 @@ fn base_t2o(seed: u64) -> Base {
             Some(fvk.to_ovk(orchard::keys::Scope::External)),
             fvk.address_at(0u32, orchard::keys::Scope::External),
             Zatoshis::const_from_u64(100_000),
-            MemoBytes::empty(),
+            memo(),
         )
         .expect("orchard output");
     builder
@@ -905,7 +911,7 @@ fn base_t2o(seed: u64) -> Base {
             Some(fvk.to_ovk(orchard::keys::Scope::Internal)),
             fvk.address_at(0u32, orchard::keys::Scope::Internal),
             Zatoshis::const_from_u64(1_880_000),
-            MemoBytes::empty(),
+            memo(),
         )
         .expect("orchard change");
     let PcztResult { pczt_parts, .. } =
@@ -983,6 +989,125 @@ fn gen_value(s: &S, tag: u8) -> V {
         S::Rec(fs) => V::Rec(fs.iter().map(|(_, t)| gen_value(t, tag)).collect()),
         S::Enum(vs) => V::Enum(0, Box::new(gen_value(&vs[0].1, tag))),
     }
+}
+
+const MAX_MONEY: u64 = 21_000_000 * 100_000_000;
+/// beyond the two-byte length prefix of the encoding (2^14)
+const LARGE: usize = 16_500;
+
+/// Boundary values of the variable-length and numeric wire types. `variant` 1: the small end (empty
+/// strings / lists, 0 against 1-element / 1); `variant` 2: the large end (type maxima, MAX_MONEY,
+/// lengths that need a 2- and a 3-byte length prefix). `tag` 1 / 2 selects one of two different values
+/// of the family. Fixed-size arrays have no boundary (and an all-zero anchor is the documented
+/// stand-in for "absent"), so they keep their ordinary values. Strings stay ASCII.
+fn gen_boundary(s: &S, tag: u8, variant: usize) -> V {
+    let small = variant == 1;
+    let first = tag == 1;
+    match s {
+        S::U8 | S::Bool | S::Fixed(_) => gen_value(s, tag),
+        S::U32 => V::U(match (small, first) {
+            (true, true) => 0,
+            (true, false) => 1,
+            (false, true) => u32::MAX as u64,
+            (false, false) => u32::MAX as u64 - 1,
+        }),
+        S::U64 => V::U(match (small, first) {
+            (true, true) => 0,
+            (true, false) => 1,
+            (false, true) => u64::MAX,
+            (false, false) => MAX_MONEY,
+        }),
+        S::I128 => V::I(match (small, first) {
+            (true, true) => 0,
+            (true, false) => -1,
+            (false, true) => i128::MAX,
+            (false, false) => i128::MIN,
+        }),
+        S::Var => V::B(match (small, first) {
+            (true, true) => vec![],
+            (true, false) => vec![b'a'],
+            (false, true) => vec![b'b'; 200],
+            (false, false) => vec![b'c'; LARGE],
+        }),
+        S::Seq(t) => V::Seq(match (small, first) {
+            (true, true) => vec![],
+            (true, false) => vec![gen_boundary(t, 1, variant)],
+            (false, true) => (0..130).map(|i| gen_boundary(t, 1 + (i % 2) as u8, variant)).collect(),
+            (false, false) => (0..127).map(|i| gen_boundary(t, 1 + (i % 2) as u8, variant)).collect(),
+        }),
+        S::Opt(t) => some(gen_boundary(t, tag, variant)),
+        S::Map(k, t) => V::Map(vec![(gen_value(k, tag), gen_boundary(t, tag, variant))]),
+        S::Rec(fs) => V::Rec(fs.iter().map(|(_, t)| gen_boundary(t, tag, variant)).collect()),
+        S::Enum(vs) => V::Enum(0, Box::new(gen_boundary(&vs[0].1, tag, variant))),
+    }
+}
+
+fn has_boundary(s: &S) -> bool {
+    match s {
+        S::U8 | S::Bool | S::Fixed(_) => false,
+        S::U32 | S::U64 | S::I128 | S::Var | S::Seq(_) => true,
+        S::Opt(t) => has_boundary(t),
+        S::Map(_, t) => has_boundary(t),
+        S::Rec(fs) => fs.iter().any(|(_, t)| has_boundary(t)),
+        S::Enum(vs) => vs.iter().any(|(_, t)| has_boundary(t)),
+    }
+}
+
+/// A memo (512 bytes) with its trailing zero bytes stripped, by kind:
+/// 0 all-zero memo (strips to nothing), 1 one byte, 2 511 bytes, 3 the full 512 bytes,
+/// 4 only the last byte set (512 bytes, zeros inside), 5 the empty-memo marker 0xF6.
+fn stripped_memo(kind: usize) -> Vec<u8> {
+    let full = |n: usize| (0..n).map(|i| if i == 0 { 0xFF } else { (i % 251) as u8 + 1 }).collect::<Vec<u8>>();
+    match kind {
+        0 => vec![],
+        1 => vec![0x41],
+        2 => full(511),
+        3 => full(512),
+        4 => {
+            let mut m = vec![0u8; 512];
+            m[511] = 1;
+            m
+        }
+        _ => vec![0xF6],
+    }
+}
+const MEMO_KINDS: usize = 6;
+
+fn full_memo(kind: usize) -> [u8; 512] {
+    let mut m = [0u8; 512];
+    let s = stripped_memo(kind);
+    m[..s.len()].copy_from_slice(&s);
+    m
+}
+
+fn is_orchard_enc(t: &Target) -> bool {
+    matches!(t.schema, S::Enum(_)) && t.name.ends_with("output.enc_ciphertext")
+}
+
+/// Number of boundary variants of an agreed-on slot (besides the ordinary perturbation, variant 0).
+fn eq_variants(t: &Target) -> usize {
+    if is_orchard_enc(t) {
+        MEMO_KINDS + 1
+    } else if has_boundary(&t.schema) {
+        2
+    } else {
+        0
+    }
+}
+
+/// The "other" value (abstract 2) of an agreed-on slot under a boundary variant.
+fn eq_boundary(t: &Target, base: &V, variant: usize) -> V {
+    let v = if is_orchard_enc(t) {
+        if variant <= MEMO_KINDS {
+            // the memo plaintext form (v2 only), at the length boundaries
+            V::Enum(1, Box::new(V::B(stripped_memo(variant - 1))))
+        } else {
+            V::Enum(0, Box::new(V::B(vec![]))) // an empty ciphertext
+        }
+    } else {
+        gen_boundary(&t.schema, 1, variant)
+    };
+    if v == *base { gen_boundary(&t.schema, 2, variant.min(2)) } else { v }
 }
 
 fn perturb(s: &S, v: &V) -> V {
@@ -1130,12 +1255,16 @@ fn write_flat(l: &mut V, t: &Target, val: Option<V>) {
 
 /// The concrete value of abstract value `abs` (1 or 2) of flat slot `t`: 1 is the value the base
 /// carries (or a first synthetic one), 2 a different one.
-fn flat_value(base: &V, t: &Target, abs: u64) -> Option<V> {
+fn flat_value(base: &V, t: &Target, abs: u64, variant: usize) -> Option<V> {
+    if variant > 0 && abs > 0 {
+        // boundary family: two different values, whatever the base carries
+        return Some(gen_boundary(&t.schema, abs as u8, variant));
+    }
     match abs {
         0 => None,
         1 => Some(read_flat(base, t).unwrap_or_else(|| gen_value(&t.schema, 1))),
         2 => {
-            let one = flat_value(base, t, 1).unwrap();
+            let one = flat_value(base, t, 1, 0).unwrap();
             let two = gen_value(&t.schema, 2);
             Some(if two == one { gen_value(&t.schema, 3) } else { two })
         }
@@ -1143,9 +1272,15 @@ fn flat_value(base: &V, t: &Target, abs: u64) -> Option<V> {
     }
 }
 
-fn write_eq(l: &mut V, base: &V, t: &Target, abs: u64) {
+fn write_eq(l: &mut V, base: &V, t: &Target, abs: u64, variant: usize) {
     let b = at(base, &t.path).clone();
-    *at_mut(l, &t.path) = if abs == 1 { b } else { perturb(&t.schema, &b) };
+    *at_mut(l, &t.path) = if abs == 1 {
+        b
+    } else if variant == 0 {
+        perturb(&t.schema, &b)
+    } else {
+        eq_boundary(t, &b, variant)
+    };
 }
 
 // =================================================================================================
@@ -1156,6 +1291,8 @@ fn write_eq(l: &mut V, base: &V, t: &Target, abs: u64) {
 struct Binding {
     opt: BTreeMap<String, Target>,
     eq: BTreeMap<String, Target>,
+    /// 0: ordinary slot values; 1, 2, ..: boundary values (gen_boundary / eq_boundary)
+    variant: usize,
 }
 
 impl Binding {
@@ -1163,6 +1300,7 @@ impl Binding {
         json!({
             "opt": self.opt.iter().map(|(k, t)| (k.clone(), J::String(t.name.clone()))).collect::<serde_json::Map<_, _>>(),
             "eq": self.eq.iter().map(|(k, t)| (k.clone(), J::String(t.name.clone()))).collect::<serde_json::Map<_, _>>(),
+            "variant": self.variant,
         })
     }
 }
@@ -1199,12 +1337,12 @@ fn realise(base: &V, party: &J, b: &Binding, lists: bool, dummy_item: bool) -> V
     let mut l = base.clone();
     for (slot, abs) in jmap(&party["opt"]) {
         let t = &b.opt[&slot];
-        let v = flat_value(base, t, abs);
+        let v = flat_value(base, t, abs, b.variant);
         write_flat(&mut l, t, v);
     }
     for (slot, abs) in jmap(&party["eq"]) {
         let t = &b.eq[&slot];
-        write_eq(&mut l, base, t, abs);
+        write_eq(&mut l, base, t, abs, b.variant);
     }
     let lock = party["lock"].as_u64().unwrap();
     if lock != 1 {
@@ -1365,6 +1503,16 @@ fn execute_trees(parties: &[Pczt], want: &Option<(V, Vec<u8>)>, trees: &[Vec<u64
             }
             (Ok(Some(p)), Some((l, bytes))) => match guarded(|| p.serialize()) {
                 Ok(Ok(got)) => {
+                    if t.is_empty() && got == *bytes {
+                        // the combined PCZT parses back and re-serialises identically
+                        match guarded(|| Pczt::parse(&got).map(|q| q.serialize())) {
+                            Ok(Ok(Ok(again))) if again == got => {}
+                            other => {
+                                return Some(json!({"what": "the combined PCZT does not survive serialise / parse", "tree": tree,
+                                                   "got": format!("{:?}", other.map(|r| r.map(|x| x.map(|b| b.len()))))}));
+                            }
+                        }
+                    }
                     if got != *bytes {
                         let d = match decode_pczt(&got) {
                             Ok((ver, g)) => {
@@ -1433,6 +1581,12 @@ fn orchard_note(k: &OrchardKeys, rng: &mut ChaCha20Rng) -> (orchard::Note, orcha
 
 /// Orchard spend -> 2 Orchard outputs, v5 (pczt/tests/end_to_end.rs::orchard_to_orchard).
 fn base_o2o(seed: u64) -> Base {
+    base_o2o_memo(seed, 5)
+}
+
+/// `memo_kind`: the outputs' memo (see `stripped_memo`; 5 = the ordinary empty memo)
+fn base_o2o_memo(seed: u64, memo_kind: usize) -> Base {
+    let memo = || MemoBytes::from_bytes(&full_memo(memo_kind)).expect("512 bytes");
     let k = orchard_keys();
     let mut rng = ChaCha20Rng::seed_from_u64(seed ^ 0x0202);
     let (note, anchor, path) = orchard_note(&k, &mut rng);
@@ -1443,7 +1597,7 @@ fn base_o2o(seed: u64) -> Base {
             Some(k.fvk.to_ovk(orchard::keys::Scope::External)),
             k.fvk.address_at(0u32, orchard::keys::Scope::External),
             Zatoshis::const_from_u64(100_000),
-            MemoBytes::empty(),
+            memo(),
         )
         .expect("output");
     builder
@@ -1451,7 +1605,7 @@ fn base_o2o(seed: u64) -> Base {
             Some(k.fvk.to_ovk(orchard::keys::Scope::Internal)),
             k.fvk.address_at(0u32, orchard::keys::Scope::Internal),
             Zatoshis::const_from_u64(890_000),
-            MemoBytes::empty(),
+            memo(),
         )
         .expect("change");
     let PcztResult { pczt_parts, orchard_meta, .. } = builder.build_for_pczt(rng, &zip317::FeeRule::standard()).expect("build_for_pczt");
@@ -1464,6 +1618,12 @@ fn base_o2o(seed: u64) -> Base {
 /// Orchard spend -> Ironwood output, v6, anchors and the spend witness deferred to proving time
 /// (pczt/tests/end_to_end.rs::builder_can_defer_anchors_until_proving).
 fn base_o2i(seed: u64) -> Base {
+    base_o2i_memo(seed, 5)
+}
+
+/// `memo_kind`: the outputs' memo (see `stripped_memo`; 5 = the ordinary empty memo)
+fn base_o2i_memo(seed: u64, memo_kind: usize) -> Base {
+    let memo = || MemoBytes::from_bytes(&full_memo(memo_kind)).expect("512 bytes");
     let k = orchard_keys();
     let mut rng = ChaCha20Rng::seed_from_u64(seed ^ 0x0606);
     let (note, anchor, path) = orchard_note(&k, &mut rng);
@@ -1475,7 +1635,7 @@ fn base_o2i(seed: u64) -> Base {
             Some(k.fvk.to_ovk(orchard::keys::Scope::External)),
             k.fvk.address_at(0u32, orchard::keys::Scope::External),
             Zatoshis::const_from_u64(980_000),
-            MemoBytes::empty(),
+            memo(),
         )
         .expect("ironwood output");
     let PcztResult { pczt_parts, orchard_meta, .. } = builder.build_for_pczt(rng, &zip317::FeeRule::standard()).expect("build_for_pczt");
@@ -1535,6 +1695,53 @@ fn base_s2s(seed: u64) -> Base {
     Base { name: "s2s", pre, pczt, tkeys: vec![], orchard_ask: None, ironwood_ask: None, sapling_ask: Some((idx, extsk.expsk.ask)), deferred: None }
 }
 
+
+/// The documented acceptance boundary of the memo plaintext form (orchard.rs, `MemoPlaintext`:
+/// "Returns an error if `bytes` is longer than MEMO_SIZE, or if it contains any trailing zero bytes"):
+/// every stripped memo of 0..=512 bytes without a trailing zero parses, re-serialises to the same
+/// bytes and is what the getter shows; 513 bytes or a trailing zero byte is refused.
+fn codec_checks(base: &Base, base_l: &V) -> Vec<J> {
+    let mut out = vec![];
+    let (_, eq) = catalogue(base_l);
+    for t in eq.iter().filter(|t| is_orchard_enc(t)) {
+        let mut accept: Vec<(String, Vec<u8>)> = (0..MEMO_KINDS).map(|k| (format!("stripped memo kind {k}"), stripped_memo(k))).collect();
+        for n in [2usize, 127, 128, 255, 256, 510] {
+            accept.push((format!("stripped memo of {n} bytes"), (0..n).map(|i| (i % 251) as u8 + 1).collect()));
+        }
+        let reject: Vec<(String, Vec<u8>)> = vec![
+            ("513 bytes".into(), vec![7u8; 513]),
+            ("a trailing zero byte".into(), vec![7, 0]),
+            ("a single zero byte".into(), vec![0]),
+            ("512 bytes ending in zero".into(), {
+                let mut m = vec![7u8; 512];
+                m[511] = 0;
+                m
+            }),
+        ];
+        for (what, memo, want_ok) in accept.iter().map(|(w, m)| (w, m, true)).chain(reject.iter().map(|(w, m)| (w, m, false))) {
+            let mut l = base_l.clone();
+            *at_mut(&mut l, &t.path) = V::Enum(1, Box::new(V::B(memo.clone())));
+            let bytes = encode_pczt(&l, 2, true);
+            let got = guarded(|| Pczt::parse(&bytes));
+            let problem = match (got, want_ok) {
+                (Err(m), _) => Some(format!("parse panicked: {m}")),
+                (Ok(Err(e)), true) => Some(format!("parse refuses a well-formed v2 encoding: {e:?}")),
+                (Ok(Ok(_)), false) => Some("parse accepts a memo plaintext the encoding excludes".to_string()),
+                (Ok(Err(_)), false) => None,
+                (Ok(Ok(p)), true) => match guarded(|| p.serialize()) {
+                    Ok(Ok(b)) if b == bytes => None,
+                    Ok(Ok(b)) => Some(format!("re-serialisation differs ({} vs {} bytes)", b.len(), bytes.len())),
+                    other => Some(format!("serialize failed: {:?}", other.map(|r| r.map(|b| b.len())))),
+                },
+            };
+            if let Some(p) = problem {
+                out.push(json!({"kind": "codec", "base": base.name, "slot": t.name, "memo": what, "memo_len": memo.len(), "what": p}));
+            }
+        }
+    }
+    out
+}
+
 struct MergeInput {
     trees: BTreeMap<usize, Vec<Vec<u64>>>,
     cases: Vec<J>,
@@ -1578,7 +1785,20 @@ fn bindings_for(k: &str, idx: usize, base_name: &str, flat: &[Target], eq: &[Tar
         b
     };
     match k {
-        "opt1" => flat.iter().map(|t| one("o1", t.clone())).collect(),
+        "opt1" => {
+            let mut v: Vec<Binding> = flat.iter().map(|t| one("o1", t.clone())).collect();
+            // boundary values of the variable-length / numeric slots, on a quarter of the assignments
+            if idx % 4 == 1 {
+                for t in flat.iter().filter(|t| has_boundary(&t.schema)) {
+                    for variant in 1..=2 {
+                        let mut b = one("o1", t.clone());
+                        b.variant = variant;
+                        v.push(b);
+                    }
+                }
+            }
+            v
+        }
         "opt2" => {
             let m = flat.len();
             let a = idx % m;
@@ -1592,10 +1812,13 @@ fn bindings_for(k: &str, idx: usize, base_name: &str, flat: &[Target], eq: &[Tar
         }
         "eq1" => eq
             .iter()
-            .map(|t| {
-                let mut b = Binding::default();
-                b.eq.insert("e1".into(), t.clone());
-                b
+            .flat_map(|t| {
+                (0..=eq_variants(t)).map(move |variant| {
+                    let mut b = Binding::default();
+                    b.eq.insert("e1".into(), t.clone());
+                    b.variant = variant;
+                    b
+                })
             })
             .collect(),
         "lock" | "four" => vec![one("o1", pick(idx))],
@@ -1622,8 +1845,16 @@ fn cmd_merge(cases_path: &str, tier: &str) {
     let mut classes: BTreeSet<String> = BTreeSet::new();
     let mut kind_idx: BTreeMap<String, usize> = BTreeMap::new();
     let mut mismatch_keys: BTreeSet<String> = BTreeSet::new();
+    let mut codec_n = 0usize;
     for base in &bases {
         let base_l = logical_of(&base.pczt);
+        for m in codec_checks(base, &base_l) {
+            if mismatches.len() < 40 {
+                mismatches.push(json!({"kind": "codec", "base": base.name, "case": {"k": "codec", "ps": [], "out": {"ok": true, "v": {}}}, "binding": {"slot": m["slot"], "memo": m["memo"]},
+                                       "idx": 0, "detail": m, "trees": [], "seed": seed, "tier": tier}));
+            }
+        }
+        codec_n += 1;
         let (flat, eq) = catalogue(&base_l);
         let mut order: Vec<usize> = (0..flat.len()).collect();
         order.shuffle(&mut ChaCha20Rng::seed_from_u64(seed ^ 0xC13));
@@ -1727,7 +1958,7 @@ fn cmd_merge(cases_path: &str, tier: &str) {
     }
     println!(
         "{}",
-        json!({"role_cases": role_cases, "role_cases_skipped": role_skipped, "role_classes": role_classes,
+        json!({"codec_checked_bases": codec_n, "role_cases": role_cases, "role_cases_skipped": role_skipped, "role_classes": role_classes,
                "cases": st.cases, "combines": st.combines, "conflicts_predicted": st.conflicts_predicted,
                "joins_predicted": st.joins_predicted, "distinct_results": st.results.len(), "v1_results": st.v1, "v2_results": st.v2,
                "per_kind": per_kind, "slot_classes": classes.len(), "classes": classes, "bases": bases.iter().map(|b| b.name).collect::<Vec<_>>(),
@@ -2548,9 +2779,17 @@ fn project(p: &Pczt) -> Result<(J, V), String> {
         }
     }
     let v6 = g.field(&s_global(), "tx_version").u() == 6;
+    let mut mlens: Vec<u64> = vec![];
+    for path in [P_ACT.to_vec(), vec![Step::F(4), Step::F(0)]] {
+        for a in at(&l, &path).seq() {
+            if let V::Enum(1, m) = a.field(&s_action(Form::Logical), "output").field(&s_ooutput(Form::Logical), "enc_ciphertext") {
+                mlens.push(m.bytes().len() as u64);
+            }
+        }
+    }
     Ok((
         json!({"flags": flags, "txid": txid, "enc": enc, "txv6": v6, "iron": iron, "nv2": nv2, "oanchor": oanchor, "sanchor": sanchor,
-               "cvcmx": cvcmx, "memo": memo, "rt": rt, "own": own, "get": get, "z244": z244, "sigok": sigok, "sigs": sigs, "nin": nin, "nss": nss}),
+               "cvcmx": cvcmx, "memo": memo, "rt": rt, "own": own, "get": get, "z244": z244, "sigok": sigok, "sigs": sigs, "nin": nin, "nss": nss, "mlens": mlens}),
         l,
     ))
 }
@@ -2779,7 +3018,7 @@ fn tx_matches_effects(tx: &zcash_primitives::transaction::Transaction, l: &V) ->
 }
 
 /// One sequence: io-finalise, fork, random roles on the copies, final combine + sign + finalise + extract.
-fn run_sequence(w: &mut NdjsonWriter, rng: &mut ChaCha20Rng, base: &Base, reds: &[RedactDef], keys: &ProvingKeys, steps: usize, ops_log: &mut Vec<J>, stats: &mut BTreeMap<String, usize>) -> Result<(), String> {
+fn run_sequence(w: &mut NdjsonWriter, rng: &mut ChaCha20Rng, base: &Base, reds: &[RedactDef], keys: &ProvingKeys, steps: usize, memo_variant: bool, ops_log: &mut Vec<J>, stats: &mut BTreeMap<String, usize>) -> Result<(), String> {
     let ncopies = 3;
     let (pre_j, pre_l) = project(&base.pre)?;
     let (post_j, post_l) = project(&base.pczt)?;
@@ -2792,8 +3031,15 @@ fn run_sequence(w: &mut NdjsonWriter, rng: &mut ChaCha20Rng, base: &Base, reds: 
     let mut proj: Vec<(J, V)> = vec![(post_j, post_l); ncopies];
     // copy 0 is the coordinator's: it is never redacted, so the final combination has everything
     // every other shielded sequence compacts one of the other copies at some point, and expands it later
-    let shielded_pool = if list_len(&proj[0].1, "orchard") > 0 { Some(Pool::Orchard) } else if list_len(&proj[0].1, "ironwood") > 0 { Some(Pool::Ironwood) } else { None };
-    let forced = if shielded_pool.is_some() && rng.gen_bool(0.5) { Some((rng.gen_range(0..steps), rng.gen_range(1..ncopies))) } else { None };
+    // (the memos the caller chose are on the Ironwood outputs where there are any)
+    let shielded_pool = if list_len(&proj[0].1, "ironwood") > 0 { Some(Pool::Ironwood) } else if list_len(&proj[0].1, "orchard") > 0 { Some(Pool::Orchard) } else { None };
+    let forced = if shielded_pool.is_some() && (memo_variant || rng.gen_bool(0.5)) {
+        // a base built with a boundary memo is compacted right away (before any redaction can take the
+        // note fields the compaction needs), so that the memo plaintext form of that length is exercised
+        Some((if memo_variant { 0 } else { rng.gen_range(0..steps) }, rng.gen_range(1..ncopies)))
+    } else {
+        None
+    };
     for step in 0..steps {
         if let Some((at_step, c)) = forced {
             if step == at_step {
@@ -3179,7 +3425,9 @@ fn cmd_rerun(path: &str) {
     let case = &rep["case"];
     let trees: Vec<Vec<u64>> = rep["trees"].as_array().unwrap().iter().map(|x| x.as_array().unwrap().iter().map(|y| y.as_u64().unwrap()).collect()).collect();
     let mut st = MergeStats::default();
-    let res = if rep["kind"] == "merge" {
+    let res = if rep["kind"] == "codec" {
+        codec_checks(base, &base_l).into_iter().next()
+    } else if rep["kind"] == "merge" {
         let (flat, eq) = catalogue(&base_l);
         let mut b = Binding::default();
         for (k, v) in rep["binding"]["opt"].as_object().unwrap() {
@@ -3188,6 +3436,7 @@ fn cmd_rerun(path: &str) {
         for (k, v) in rep["binding"]["eq"].as_object().unwrap() {
             b.eq.insert(k.clone(), eq.iter().find(|t| t.name == v.as_str().unwrap()).expect("target").clone());
         }
+        b.variant = rep["binding"]["variant"].as_u64().unwrap_or(0) as usize;
         run_case(&base_l, case, &b, &trees, rep["idx"].as_u64().unwrap_or(0) as usize, &mut st)
     } else {
         let reds = redactions();
@@ -3213,6 +3462,7 @@ fn cmd_roles(trace_path: &str, nseq: usize, tier: &str) {
     let no_keys = ProvingKeys::none();
     // proofs: every shielded sequence in the thorough tier, the first one per shielded base otherwise
     let mut proven: BTreeMap<&'static str, usize> = BTreeMap::new();
+    let mut memo_rot: BTreeMap<usize, usize> = BTreeMap::new();
     let bases = bases_for(tier, seed);
     let mut w = NdjsonWriter::create(trace_path);
     let mut stats: BTreeMap<String, usize> = BTreeMap::new();
@@ -3222,8 +3472,23 @@ fn cmd_roles(trace_path: &str, nseq: usize, tier: &str) {
         // mostly the transparent base (extractable without proofs), in many variants
         let which = if tier == "thorough" { sidx % 5 } else { [0, 0, 0, 1, 0, 2, 0, 3, 0, 4][sidx % 10] };
         let varied;
+        let mut memo_variant = false;
         let base = if which == 0 {
             varied = vary_transparent(&bases[0], &mut rng);
+            &varied
+        } else if which <= 3 {
+            // the shielded outputs' memo walks the boundaries of the stripped-memo length
+            let k = {
+                let n = memo_rot.entry(which).or_insert(0usize);
+                *n += 1;
+                (*n - 1) % MEMO_KINDS
+            };
+            memo_variant = true;
+            varied = match which {
+                1 => base_t2o_memo(seed, k),
+                2 => base_o2o_memo(seed, k),
+                _ => base_o2i_memo(seed, k),
+            };
             &varied
         } else {
             &bases[which]
@@ -3236,7 +3501,7 @@ fn cmd_roles(trace_path: &str, nseq: usize, tier: &str) {
             *n += 1;
             tier == "thorough" || *n <= 1
         };
-        if let Err(e) = run_sequence(&mut w, &mut rng, base, &reds, if with_proofs { &keys } else { &no_keys }, steps, &mut ops_log, &mut stats) {
+        if let Err(e) = run_sequence(&mut w, &mut rng, base, &reds, if with_proofs { &keys } else { &no_keys }, steps, memo_variant, &mut ops_log, &mut stats) {
             failure = Some(json!({"sequence": sidx, "base": base.name, "what": e, "ops": ops_log}));
             break;
         }
